@@ -35,6 +35,10 @@ def check(ctx):
     ctx.attempt(_colon)
     ctx.attempt(_sec_within)
     ctx.attempt(_segment)
+    # with `segment`, cleanup_desc is applied to whole chunks: its connector
+    # table must not swallow description vocabulary
+    from .c01 import word_tables
+    ctx.attempt(word_tables)
 
 
 def _colon(ctx):
